@@ -276,7 +276,8 @@ impl<L: LSPLang> Backend<L> {
   async fn on_change(&self, params: DidChangeTextDocumentParams) -> Option<()> {
     let text_doc = params.text_document;
     let uri = text_doc.uri.as_str();
-    let text = &params.content_changes[0].text;
+    // the document is synchronized in full: every change holds the whole text, the last one wins
+    let text = &params.content_changes.last()?.text;
     self
       .client
       .log_message(MessageType::LOG, "Parsing changed doc.")
